@@ -336,6 +336,43 @@ pub fn c07(c: &mut Collector, seed: u64, shard: u64, nshards: u64, thorough: boo
         c.max("max:move-list-entries-estimated", entries_estimate(&p));
         run_on(c, &mut rng, cr.family, p.to_fen().as_bytes(), &mut d, n_ops, budget);
     }
+    // 1b. every e.p. geometry searched two plies deep: an e.p. capture wrongly judged legal lets the
+    //     opponent capture the king, and the next legals()/king_sq() pops an empty king set
+    if !small {
+        let mut eps = Vec::new();
+        workload::ep_family(shard, nshards, if thorough { 4 } else { 16 }, &mut eps);
+        let mut frozen_rng = Rng::new(0xF20E + shard);
+        workload::ep_frozen_family(&mut frozen_rng, shard, nshards, 64, &mut eps);
+        for cr in &eps {
+            let mut p = cr.pre.clone();
+            for m in &cr.moves {
+                p = p.apply(*m);
+            }
+            let fen = p.to_fen();
+            c.eval();
+            c.count("ep-geometry-searches");
+            c.journal(&format!("ep-geometry search {fen}"));
+            let r = catch_unwind(AssertUnwindSafe(|| {
+                let Ok(b) = real::parse(&fen) else { return None };
+                let t = CountingTimeout::new(2500);
+                let mut e = Engine::default();
+                let r = e.search(&b, &ThreeFold::new(), &t);
+                let _ = chess_engine::verif::take_events();
+                Some(r)
+            }));
+            match r {
+                Ok(Some((m, s))) => {
+                    d.s(&format!("{:?}", m.map(|x| mv_back(x).uci())));
+                    d.s(&crate::engmon::score_str(s));
+                }
+                Ok(None) => {}
+                Err(_) => {
+                    let site = LAST_PANIC.with(|l| l.borrow().clone());
+                    c.violation("safe-api-panicked", &site, format!("search of {fen} with 2500 polls panicked at {site}"), obj().set("fen", fen.as_str()).set("expire_at_poll", 2500u64));
+                }
+            }
+        }
+    }
     // 2. corpus
     for (i, p) in workload::corpus().iter().enumerate() {
         if i as u64 % nshards == shard && (!small || i % 9 == 0) {
